@@ -316,7 +316,10 @@ def wed(params):
     pt_b = vsum(base_bottom, vec_b)
     vec_ab = vdiff(vec_a, vec_b)
     vec_c = vect(vec_ab, height)
-    sign_c = 1 if mixed(vec_a, vec_b, vec_c) > 0. else -1
+    # vec_c is normal to the slanted facet; the vertex (base_bottom) must lie
+    # on its inner side. (The mixed product of vec_a, vec_b and vec_c cannot
+    # be used: vec_c lies in the plane of vec_a and vec_b, so it vanishes.)
+    sign_c = 1 if scal(vec_a, vec_c) > 0. else -1
     return [
         (MS.P, planeParamsFromNormalAndPoint(vec_c, pt_a), sign_c),
         (MS.P, planeParamsFromNormalAndPoint(vec_a, pt_b), -1),
